@@ -26,6 +26,14 @@ Theorem C04_ids_fresh_across_restarts :
 Proof. split; reflexivity. Qed.
 Print Assumptions C04_ids_fresh_across_restarts.
 
+(* the hand-off of the model (an ID taken from the channel is in the reply the poller receives) needs the proxy to be
+   able to write that reply however long the poll has been waiting: it is served by http.Serve, without read, write or
+   idle deadlines *)
+Theorem C04_no_server_deadlines :
+  serverMainHTTPCalls = ["http.Serve"%string] /\ serverHTTPServerFields = [] /\ serverLimitCalls = [].
+Proof. repeat split; reflexivity. Qed.
+Print Assumptions C04_no_server_deadlines.
+
 (* the bounded LRU is exactly the K most recently listed distinct IDs *)
 Theorem C04_lru_is_recency_prefix : forall K s R, NoDup R ->
   fst (lru_run Z.eqb (S K) (firstn (S K) R) s) = firstn (S K) (recency Z.eqb R s).
